@@ -24,7 +24,8 @@ ID = "C20"
 RULE = ("Hypothesis-generated histories: up to 6 concurrent callers over a pool of 4 keys (plus 1 vs 1.0 for typed), the "
         "wrapped function gated per execution (returns a fresh token, raises Boom, or is cancelled), a controller opening "
         "gates in any order, cancelling callers and advancing virtual time (ttl); plus sequential histories compared "
-        "with functools.lru_cache; non-trivial = two or more callers in flight on different keys with the cache full, "
+        "with functools.lru_cache, and sequential histories in which some calls fail (retention, internal errors and "
+        "provenance judged); non-trivial = two or more callers in flight on different keys with the cache full, "
         "or a failing in-flight call with a waiter queued on it; distinct = distinct canonical JSON")
 ASSUMPTIONS = [
     "maxsize=0 means no caching (as the code documents and as in the stdlib): only value provenance is demanded there",
